@@ -482,9 +482,11 @@ def _keygen(func, ignored, *args, **kwds):
    #user_kwds.update(dict([(k,NULL) for k in names_to_ignore])) #(see above)
     _keys = tuple(user_kwds.keys()) + explicitly_named
     user_kwds.update(dict([(k,NULL) for k in names_to_ignore if k in _keys]))
-    # if ignoring **kwds, then pop all not in explicitly_named
+    # if ignoring **kwds, then pop all not in explicitly_named (or keyword-only)
     if varkwds_to_ignore:
-        [user_kwds.pop(k) for k in kwds if k not in explicitly_named]
+        try: kwonly = inspect.getfullargspec(getattr(func, 'func', func)).kwonlyargs
+        except TypeError: kwonly = []
+        [user_kwds.pop(k) for k in kwds if k not in explicitly_named and k not in kwonly]
 
     # NULL out args that are NULL'ed as kwds, and vice-versa 
 #   if crossref:
